@@ -54,9 +54,10 @@ static int op_addmul_ui(int c, tok_t *a, out_t *o) { return doui(mpz_addmul_ui, 
 static int op_submul_ui(int c, tok_t *a, out_t *o) { return doui(mpz_submul_ui, c, a, o); }
 static int op_addmul(int c, tok_t *a, out_t *o) { return do3(mpz_addmul, c, a, o); }
 static int op_submul(int c, tok_t *a, out_t *o) { return do3(mpz_submul, c, a, o); }
+static int op_mul(int c, tok_t *a, out_t *o) { return do3(mpz_mul, c, a, o); }
 
 const opdef_t ops_allocsafe4[] = {
   {"as4_addmul_ui", op_addmul_ui}, {"as4_submul_ui", op_submul_ui},
-  {"as4_addmul", op_addmul}, {"as4_submul", op_submul},
+  {"as4_addmul", op_addmul}, {"as4_submul", op_submul}, {"as4_mul", op_mul},
   {0, 0}
 };
